@@ -759,6 +759,37 @@ Proof.
   intros H. destruct (run_same trace _ _ st start_same H) as (st' & R & (E1 & E2 & _ & E4 & _)).
   exists st'. auto.
 Qed.
+(* a tie-breaking rule that looks only at the utility array and at which genes are taken (here:
+   the first gene of maximal utility; np.argsort of the utility array is another) makes the same
+   choices under both orders *)
+Lemma find_ext' {A} (f g : A -> bool) l : (forall x, f x = g x) -> find f l = find g l.
+Proof. intros H. induction l as [|x t IH]; cbn; [reflexivity|]. rewrite H, IH. reflexivity. Qed.
+
+Lemma first_max_same a b : same_state a b -> first_max n_genes a = first_max n_genes b.
+Proof.
+  intros E. pose proof E as (E1 & _ & _ & _ & E5). unfold first_max. apply find_ext'. intros g.
+  rewrite (nmem_perm g _ _ E1), (E5 g), (max_utility_same _ _ E). reflexivity.
+Qed.
+
+Lemma greedy_same fuel : forall a b a', same_state a b -> greedy n_genes pairs marks n fuel a = Some a' ->
+  exists b', greedy n_genes pairs' marks n fuel b = Some b' /\ same_state a' b'.
+Proof.
+  induction fuel as [|k IH]; intros a b a' E H; cbn in *; [discriminate|].
+  pose proof (update_same a b E) as E'. rewrite <- (finished_same _ _ E').
+  destruct (finished n_genes pairs (update_filled n_genes pairs marks n a)).
+  - inversion H; subst a'. eexists. split; [reflexivity | exact E'].
+  - rewrite <- (first_max_same _ _ E').
+    destruct (first_max n_genes (update_filled n_genes pairs marks n a)) as [g|]; [|discriminate].
+    apply (IH _ _ a' (choose_same _ _ g E') H).
+Qed.
+
+Theorem greedy_order_irrelevant fuel st :
+  greedy n_genes pairs marks n fuel (start n_genes pairs marks n) = Some st ->
+  exists st', greedy n_genes pairs' marks n fuel (start n_genes pairs' marks n) = Some st' /\
+              Permutation (chosen st) (chosen st').
+Proof.
+  intros H. destruct (greedy_same fuel _ _ st start_same H) as (st' & G & (E1 & _)). exists st'. auto.
+Qed.
 End Order.
 
 (* the two index arrays the pipeline can hand to _run_selection for one parent (global sorted
